@@ -441,24 +441,49 @@ seed("c09-bicgstab-zero-norm-after-use", "C09", SP, """        if normb == 0.0 {
 
 # ---------------------------------------------------------------- C18
 seed("c18-restore-omitted", "C18", FUN, """            let f_new = func( state.clone() ); 
-            state[i] -= delta;
+            state[i] = original;
             jac.set_col( i, ( f_new - f.clone() ) / delta );""", """            let f_new = func( state.clone() ); 
             jac.set_col( i, ( f_new - f.clone() ) / delta );""", "perturb-restore")
+seed("c18-restore-by-subtraction", "C18", FUN, """            let f_new = func( state.clone() ); 
+            state[i] = original;
+            jac.set_col( i, ( f_new - f.clone() ) / delta );""", """            let f_new = func( state.clone() ); 
+            state[i] -= delta;
+            jac.set_col( i, ( f_new - f.clone() ) / delta );""", "restore-exact/jacobian", "the original defect (finding 22)")
+seed("c18-restore-perturbed-value", "C18", FUN, """            let original = state[i];
+            state[i] += delta;
+            let f_new = func( state.clone() ); 
+            state[i] = original;
+            jac.set_col( i, ( f_new - f.clone() ) / delta );""", """            state[i] += delta;
+            let original = state[i];
+            let f_new = func( state.clone() ); 
+            state[i] = original;
+            jac.set_col( i, ( f_new - f.clone() ) / delta );""", "restore-exact/jacobian")
+seed("n-c18-fresh-copy", "C18", FUN, """            let original = state[i];
+            state[i] += delta;
+            let f_new = func( state.clone() ); 
+            state[i] = original;
+            jac.set_col( i, ( f_new - f.clone() ) / delta );""", """            let mut shifted = point.clone();
+            shifted[i] += delta;
+            let f_new = func( shifted ); 
+            jac.set_col( i, ( f_new - f.clone() ) / delta );""", "SILENT", "neutral: a fresh copy of the point per column needs no restore")
+seed("n-c18-restore-from-point", "C18", FUN, """            let f_new = func( state.clone() ); 
+            state[i] = original;
+            jac.set_col( i, ( f_new - f.clone() ) / delta );""", """            let f_new = func( state.clone() ); 
+            state[i] = point[i];
+            jac.set_col( i, ( f_new - f.clone() ) / delta );""", "SILENT", "neutral: the untouched point holds the original value")
 seed("c18-shape-transposed", "C18", FUN, "let mut jac = Mat64::new( m, n, 0.0 );", "let mut jac = Mat64::new( n, m, 0.0 );", "shape")
 seed("c18-quotient-reversed", "C18", FUN, "jac.set_col( i, ( f_new - f.clone() ) / delta );", "jac.set_col( i, ( f.clone() - f_new ) / delta );", "quotient")
 seed("c18-restore-wrong-index", "C18", FUN, """            let f_new = func( state.clone() ); 
-            state[i] -= delta;
+            state[i] = original;
             jac.set_col( i, ( f_new - f.clone() ) / delta );""", """            let f_new = func( state.clone() ); 
-            state[0] -= delta;
+            state[0] = original;
             jac.set_col( i, ( f_new - f.clone() ) / delta );""", "perturb-restore")
 seed("c18-cmplx-divisor", "C18", FUN, "jac.set_col( i, ( f_new - f.clone() ) / Cmplx::new( delta, 0.0 ) );", "jac.set_col( i, ( f_new - f.clone() ) / Cmplx::new( 0.0, delta ) );", "quotient")
-seed("c18-neutral-restore-after-store", "C18", FUN, """            state[i] += delta;
-            let f_new = func( state.clone() ); 
-            state[i] -= delta;
-            jac.set_col( i, ( f_new - f.clone() ) / delta );""", """            state[i] += delta;
-            let f_new = func( state.clone() ); 
+seed("c18-neutral-restore-after-store", "C18", FUN, """            let f_new = func( state.clone() ); 
+            state[i] = original;
+            jac.set_col( i, ( f_new - f.clone() ) / delta );""", """            let f_new = func( state.clone() ); 
             jac.set_col( i, ( f_new - f.clone() ) / delta );
-            state[i] -= delta;""", "SILENT", "neutral: restoring after the column is stored is behaviour-preserving")
+            state[i] = original;""", "SILENT", "neutral: restoring after the column is stored is behaviour-preserving")
 seed("c18-loop-m", "C18", FUN, """        let mut jac = Mat64::new( m, n, 0.0 );
         for i in 0..n {""", """        let mut jac = Mat64::new( m, n, 0.0 );
         for i in 0..m {""", "columns")
